@@ -44,7 +44,7 @@ def check_canonical(w, line, what):
         w.check(bool(ok), f"{what} is not canonical", {"line": line})
         return
     cs = list(lift_str(line).cs)
-    w.check(len(cs) >= 11 and cs[-1] == 10, f"{what}: does not end with exactly one newline")
+    w.check(len(cs) >= 11 and cs[-1] == 10, f"{what} is not canonical")
     body = cs[:-1]
     pos = 0
     for i in range(5):
@@ -58,8 +58,8 @@ def check_canonical(w, line, what):
             if pos < len(body) and not isinstance(body[pos], int):
                 w.cut(f"{what}: integer field with symbolic characters (shape check n/a)")
             w.check(re.fullmatch(r"-?(0|[1-9][0-9]*)", text) is not None and text != "-0",
-                    f"{what}: integer field is not a canonical decimal")
-        w.check(pos < len(body) and body[pos] == 59, f"{what}: missing field separator")
+                    f"{what} is not canonical")
+        w.check(pos < len(body) and body[pos] == 59, f"{what} is not canonical")
         pos += 1
     payload = body[pos:]
     for c in payload:
@@ -67,12 +67,12 @@ def check_canonical(w, line, what):
             continue
         w.check(w.and_(w.ne(SInt(c), 59), w.ne(SInt(c), 10)) if not isinstance(c, int)
                 else c not in (59, 10),
-                f"{what}: payload contains ';' or a line feed")
+                f"{what} is not canonical")
     if payload and not isinstance(payload[-1], Render):
         last = payload[-1]
         ws = in_ranges(last, WS_RANGES)
         w.check(w.not_(ws) if not isinstance(ws, bool) else not ws,
-                f"{what}: payload has trailing whitespace")
+                f"{what} is not canonical")
 
 
 # ================================================================================================
@@ -313,6 +313,9 @@ def sym_flag(w, name):
     return w.fresh_bool(name)
 
 
+VARLEN_VALUES = False  # set by harnesses that can afford the extra length fork per value
+
+
 def gen_child(w, tag, cid, version, nvalues, ctype=None, special=()):
     from mysensors.sensor import ChildSensor
     child = ChildSensor.__new__(ChildSensor)
@@ -331,7 +334,7 @@ def gen_child(w, tag, cid, version, nvalues, ctype=None, special=()):
         for kk in keys:
             w.assume_fast(w.ne(k, kk))
         keys.append(k)
-        child.values[k] = wire_payload(w, f"{tag}.val{i}", 1, 1)
+        child.values[k] = wire_payload(w, f"{tag}.val{i}", 1, 0 if VARLEN_VALUES else 1)
     return child
 
 
